@@ -1275,6 +1275,20 @@ func (ev *Eval) callExpr(c *ECall) (EVal, error) {
 			return EVal{T: types.NewPointer(t), Terms: []string{"(i_pl " + ev.rv(a)[0] + ")"}}, nil
 		}
 		return EVal{T: types.Typ[types.UnsafePointer], Terms: []string{"(i_pl " + ev.rv(a)[0] + ")"}}, nil
+	case "asptr":
+		// asptr(p, T): the pointer p (e.g. the result of an uninterpreted function) viewed as *T
+		a, err := arg(0)
+		if err != nil {
+			return EVal{}, err
+		}
+		if len(c.Args) != 2 {
+			return EVal{}, fmt.Errorf("asptr(p, T)")
+		}
+		t, err := ev.resolveTypeName(c.Args[1])
+		if err != nil {
+			return EVal{}, err
+		}
+		return EVal{T: types.NewPointer(t), Terms: ev.rv(a)}, nil
 	case "isnil":
 		a, err := arg(0)
 		if err != nil {
